@@ -449,7 +449,12 @@ def gen_radix_cases(chk, run, tlc, tier, r):
         bits, k = c["bits"], c["k"]
         fn = "parseHex" if bits == 4 else "parseOctal"
         top = "f" if bits == 4 else "7"
-        for shape, text in (("one", "1" + "0" * k), ("max", top * k)):
+        shapes = [("one", "1" + "0" * k), ("max", top * k)]
+        if "tie" in c["o"]:
+            # 54 one bits, then zeros: exactly half-way, the even neighbour is the upper one
+            shapes.append(("tie", ("f" * 13 + "c" + "0" * (k - 14)) if bits == 4 else ("1" + "7" * 17 + "6" + "0" * (k - 19))))
+        for shape, text in shapes:
+            assert len(text) == k
             e = c["o"][shape]
             try:
                 hv = float(int(text, 1 << bits))
